@@ -330,3 +330,7 @@ func fontDigest(f *type1.Font) string {
 	}
 	return fmt.Sprintf("%s glyphs=%s %s", f.FontInfo.FontName, strings.Join(names, ","), enc)
 }
+
+type funitInt16 = funit.Int16
+
+func funitFloat(x float64) funit.Float64 { return funit.Float64(x) }
